@@ -174,6 +174,41 @@ func (e *Eval) Val(v ssa.Value) (constant.Value, bool) {
 			}
 		}
 	case *ssa.Call:
+		if b, ok := x.Call.Value.(*ssa.Builtin); ok && (b.Name() == "min" || b.Name() == "max") && len(x.Call.Args) > 0 {
+			var best constant.Value
+			for _, arg := range x.Call.Args {
+				a, ok := e.Val(arg)
+				if !ok || a.Kind() != constant.Int {
+					return nil, false
+				}
+				if best == nil || (b.Name() == "min" && constant.Compare(a, token.LSS, best)) || (b.Name() == "max" && constant.Compare(a, token.GTR, best)) {
+					best = a
+				}
+			}
+			return best, true
+		}
+		// index of a constant byte in a constant string: pure library arithmetic on constants
+		if g := x.Call.StaticCallee(); g != nil && g.Pkg != nil && g.Name() == "IndexByte" && len(x.Call.Args) == 2 && (g.Pkg.Pkg.Path() == "strings" || g.Pkg.Pkg.Path() == "bytes") {
+			hay, ok1 := e.Val(x.Call.Args[0])
+			if !ok1 {
+				if bs, ok := e.constBytes(x.Call.Args[0]); ok {
+					hay, ok1 = constant.MakeString(string(bs)), true
+				}
+			}
+			nd, ok2 := e.Val(x.Call.Args[1])
+			if ok1 && ok2 && hay.Kind() == constant.String && nd.Kind() == constant.Int {
+				n, _ := constant.Int64Val(nd)
+				hs := constant.StringVal(hay)
+				idx := int64(-1)
+				for i := 0; i < len(hs); i++ {
+					if int64(hs[i]) == n&0xff {
+						idx = int64(i)
+						break
+					}
+				}
+				return constant.MakeInt64(idx), true
+			}
+		}
 		if r, ok := e.callResults(x); ok && len(r) == 1 {
 			return r[0], r[0] != nil
 		}
@@ -182,6 +217,16 @@ func (e *Eval) Val(v ssa.Value) (constant.Value, bool) {
 			if r, ok := e.callResults(call); ok && x.Index < len(r) && r[x.Index] != nil {
 				return r[x.Index], true
 			}
+		}
+	}
+	return nil, false
+}
+
+// constBytes: v is a conversion of a constant string to bytes.
+func (e *Eval) constBytes(v ssa.Value) ([]byte, bool) {
+	if cv, ok := v.(*ssa.Convert); ok {
+		if k, ok := cv.X.(*ssa.Const); ok && k.Value != nil && k.Value.Kind() == constant.String {
+			return []byte(constant.StringVal(k.Value)), true
 		}
 	}
 	return nil, false
